@@ -3,6 +3,8 @@ CONSTANTS
   RECENT = 100
   NoBlock = "none"
   NoTx = "none"
+  VarBase = 128
+  BeyondHeadStops = FALSE
   CheckHeads <- TraceCheckHeads
 INVARIANT T_ByNumberIsAncestor
 INVARIANT T_ExcludeIsDifference
